@@ -12,6 +12,7 @@
 //!props fn append_data : C01, C02, C03, C12, C13
 //!props fn append_data_reverse : C01, C02, C03, C12, C13
 //!props fn basic : C01, C02, C03, C12, C13
+//!props fn fit_datum_to_gap : C01, C02
 //!props fn offset : C01, C02, C03
 //!props fn size : C01, C02, C03
 //!props fn type_align : C01, C02, C03
@@ -932,6 +933,46 @@ pub proof fn lemma_insert_wf(data: Seq<DatumId>, defs_b: Defs, defs_a: Defs, dc:
         assert(data_to_add@.take(data_to_add@.len() as int) == data_to_add@);
         assert(data_to_add@.len() * S <= N * S) by (nonlinear_arith) requires data_to_add@.len() <= N;
     }
+//@end
+
+// ---------------------------------------------------------------------------------------------
+// L7 (part): fit_datum_to_gap of simple.rs.  select_best / select_start_or_end_of_gap use
+// `break <expr>` and a reference pattern, which this Verus rejects: they are under Kani contracts
+// (kani/incrate/truc_simple.rs).  The main body of simple() is covered by the bounded stand-in only.
+
+//@struct truc/src/record/definition/builder/native/variant/simple.rs :: struct Gap
+//@end
+
+//@struct truc/src/record/definition/builder/native/variant/simple.rs :: struct FullGap
+//@end
+
+#[derive(Clone, Copy, PartialEq, Eq, Structural)]
+//@struct truc/src/record/definition/builder/native/variant/simple.rs :: enum FittedDatumKind
+//@end
+
+//@struct truc/src/record/definition/builder/native/variant/simple.rs :: struct FittedDatum
+//@end
+
+//@fn truc/src/record/definition/builder/native/variant/simple.rs :: fn fit_datum_to_gap
+//@ ret r
+//@ requires
+        gap.start <= gap.end,
+        datum.details.type_info.align > 0,
+        gap.start + datum.details.type_info.align + datum.details.type_info.size <= usize::MAX
+//@ ensures
+        r.is_some() <==> al(gap.start as int, datum.details.type_info.align as int) + datum.details.type_info.size <= gap.end,
+        r.is_some() ==> {
+            let f = r.unwrap().1;
+            &&& f.kind == FittedDatumKind::StartOfGap
+            &&& f.gap_index == gap_index
+            &&& f.datum_start == al(gap.start as int, datum.details.type_info.align as int) // [C02]
+            &&& f.datum_start as int % datum.details.type_info.align as int == 0 // [C02]
+            &&& f.datum_end == f.datum_start + datum.details.type_info.size
+            &&& gap.start <= f.datum_start && f.datum_end <= gap.end // [C01]
+            &&& f.gap_before == f.datum_start - gap.start
+            &&& f.gap_after == gap.end - f.datum_end
+            &&& r.unwrap().0.0 == f.gap_before + f.gap_after
+        },
 //@end
 
 } // verus!
